@@ -124,6 +124,9 @@ type Run struct {
 	probeRR  int
 	stopMain bool
 	onlyProp string
+	logsBefore   map[string]string // log directory listing taken right before a SaveToStore step (C12 r7)
+	trackChanges bool
+	settleLong   int
 	CrashLog string // if set, progress is flushed to this file after every step (runs that may kill the process)
 }
 
@@ -184,6 +187,9 @@ func (run *Run) violate(prop, rule, format string, a ...interface{}) {
 	}
 	run.viol = append(run.viol, Violation{prop, rule, fmt.Sprintf(format, a...), run.step})
 }
+
+//go:norace
+func (run *Run) curStep() int { return run.step }
 
 func (run *Run) probe(name string) { run.stats.Probes[name]++ }
 func (run *Run) fault(name string) { run.stats.Faults[name]++ }
@@ -450,6 +456,7 @@ func (run *Run) Execute() (err error) {
 		}
 	}()
 	run.mon = newMonState(run)
+	run.trackChanges = run.sc.Cfg.PersistCheck
 	for range run.sc.Clients {
 		run.clients = append(run.clients, &clientState{})
 	}
@@ -546,12 +553,18 @@ func (run *Run) settleChoice() (choice, bool) {
 			}
 			return choice{kind: "release", rec: p, name: p.final()}, true
 		}
+		d := 51 * time.Millisecond
 		if run.settleEp {
-			return choice{}, false
+			if !run.sc.Cfg.PersistCheck || run.settleLong >= 3 {
+				return choice{}, false
+			}
+			// persist liveness (C11 r7): three persist pauses with nothing but system goroutines running
+			run.settleLong++
+			d = 3050 * time.Millisecond
 		}
 		run.settleEp = true
-		run.core.advanceExactly(51 * time.Millisecond)
-		run.recordStep(StepInfo{Kind: "advance", Name: "advance", Dt: 51 * time.Millisecond, Forced: true})
+		run.core.advanceExactly(d)
+		run.recordStep(StepInfo{Kind: "advance", Name: "advance", Dt: d, Forced: true})
 		run.collect()
 	}
 }
@@ -600,6 +613,16 @@ func (run *Run) apply(ch choice) {
 			if w := run.worldOf(owner); w != nil && w.shutdownBegun == 0 {
 				w.shutdownBegun = run.step + 1
 			}
+		case "SaveToStore":
+			if w := run.worldOf(owner); w != nil && run.sc.Cfg.Logs && !w.isDead() {
+				run.logsBefore = run.listLogs(w)
+				w.failRemove = 0
+				if run.mode == modeMain && run.sc.Cfg.PRemErr > 0 && run.tape.Pick(1000) >= 1000-run.sc.Cfg.PRemErr {
+					w.failRemove = 1 + run.tape.Pick(3)
+					si.Outcome = fmt.Sprintf("remove#%d-fails", w.failRemove)
+				}
+			}
+
 		}
 		run.mon.beforeRelease(&si, ch.rec)
 		if run.CrashLog != "" {
@@ -633,6 +656,7 @@ func (run *Run) apply(ch choice) {
 		run.mode = modeSettle
 		run.settleN = 0
 		run.settleEp = false
+		run.settleLong = 0
 		run.probe("settle")
 	case "crash":
 		run.crash(&si)
@@ -816,6 +840,7 @@ func (run *Run) execOp(w *World, c int, op Op) OpResult {
 		w.r.ReplaceDefinitions(run.sc.Defs[op.Defs].toDefs())
 	case "shutdown":
 		if op.Signal {
+			w.signalled = true
 			w.cancel()
 		}
 		ctx := context.Background()
